@@ -80,7 +80,7 @@ BOUNDS = {
         "F": "L=2..3, member {absent,def,block} x inherit target {static, context['upN'], context.get('upN') absent, bound to None} at every non-last level x chaining {none,next,self}",
         "H": "L<=4, the attribute at every level absent / string / None / 0 / '' / False / [], every body chained, read through self/local/parent/next .attr",
         "I": "L<=3, member {absent, def, def calling parent} x attribute x chaining {none,next}; every level declares def card() (local.uri, self.uri, uri of context's parent/next, local/self/parent member, self/local attribute); whole page + get_def('card') and get_def(member) of every level by render_unicode() and render_context()",
-        "J": "histories on one lookup: prefix [leaf] (two member names, 5 kinds each) or [leaf, mid] (one member name, chaining {none,next}) whose last level inherits from ${context['upN']}; 9 bases (each member absent/def/block) under uris of their own; 73 renders per prefix on one set of Template objects such that every ordered pair of distinct bases occurs once as consecutive renders; every render compared with the reference (= a fresh lookup)",
+        "J": "histories on one lookup: prefix [leaf] (two member names, 5 kinds each) or [leaf, mid] (one member name, chaining {none,next}) whose last level inherits from ${context['upN']}; 9 bases (each member absent/def/block) under uris of their own; 73 renders per prefix on one set of Template objects such that every ordered pair of distinct bases occurs once as consecutive renders; every render compared with the reference (= a fresh lookup); + 3 histories per prefix in which the inherit target of one or two renders names no template (lookup exception, later renders unaffected)",
         "L": "one lookup holding 32 chains (16 of two levels, 16 of three) whose relatively-naming level lives in /, /a, /a/b, /ab and names b.html, ab.html, bb.html or a/b.html - directory and target strings that coincide when concatenated, same target in different directories; 993 renders on one lookup such that every ordered pair of chains is consecutive once; each compared with the reference (= a fresh lookup)",
         "M": "L<=3, one member name {absent, def, cached def, cached def calling parent, block, cached block, cached block calling parent} x chaining {none,next}, read through self/local/parent/next in every body; dict cache backend (mc/c06_cache.py) emptied per case; two renders on one lookup, the reference keeping (template, name) -> first output",
         "K": "an including chain of 1 (control) or 2 levels, the <%include> in any of its bodies, and an included chain of 1 or 2 levels; one member name {absent, def, block, block calling parent} in every level of both; bodies print self/local/parent member and the uri the context holds under parent and next",
